@@ -54,7 +54,14 @@ impl DependentRule for SerializableRule {
 
 impl<L: Language> DependentRule for (L, SerializableRuleCore) {
   fn visit_dependency<'a>(&'a self, sorter: &mut TopologicalSort<'a, Self>) -> OrderResult<()> {
-    visit_dependent_rule_ids(&self.1.rule, sorter)
+    visit_dependent_rule_ids(&self.1.rule, sorter)?;
+    // a global util can also depend on other global utils through its own local utils
+    if let Some(utils) = &self.1.utils {
+      for rule in utils.values() {
+        visit_dependent_rule_ids(rule, sorter)?;
+      }
+    }
+    Ok(())
   }
 }
 
